@@ -184,27 +184,32 @@ constant::operator< (constant that) const
   auto compare_magnitudes = [&] ()
     { return value () < that.value (); };
 
-  if (dom1 == dom2)
-    // Both domains are the same.  Possibly both are nullptr.
+  if (dom1 == nullptr && dom2 == nullptr)
     return compare_magnitudes ();
   if (dom1 == nullptr && dom2 != nullptr)
     return true;
   if (dom1 != nullptr && dom2 == nullptr)
     return false;
 
-  if (// If both domains are arithmetic, we can directly compare the
-      // values.
-      (dom1->safe_arith () && dom2->safe_arith ())
+  // Constants are ordered by (domain key, value).  All arithmetic
+  // domains share one key, so that e.g. decimal and hex constants
+  // compare by value.  The key of other constants is the most
+  // enclosing domain, which lets e.g. generic ELF constants of
+  // different machine-specific domains compare equal.  Using one key
+  // per constant keeps this a strict weak ordering; deciding pairwise
+  // whether to compare values or domains does not.
+  auto key = [] (constant_dom const *d, mpz_class const &v)
+    {
+      return d->safe_arith () ? &dec_constant_dom : d->most_enclosing (v);
+    };
 
-      // Maybe we can find a common sub-domain that covers them both.
-      // That has no effect for arithmetic domains, so we don't need
-      // to care if both are arithmetic or only one of them is.
-      || (dom1->most_enclosing (value ())
-	  == dom2->most_enclosing (that.value ())))
+  auto const *key1 = key (dom1, value ());
+  auto const *key2 = key (dom2, that.value ());
+  if (key1 == key2)
     return compare_magnitudes ();
 
   // Otherwise order the two constants by their domains.
-  return dom1 < dom2;
+  return key1 < key2;
 }
 
 bool
